@@ -220,7 +220,8 @@ def run_check(spec, tier, seed, replay=None, verbose=False, workers_override=Non
                 known_hits[sig][0] += 1
                 known_hits[sig][1] = log_text[-1500:]
             elif confirmed == 3 and path:
-                violations.append((sig, log_text[-3000:], path))
+                m = re.search(r"[^\n]*(runtime error|ERROR: AddressSanitizer|ERROR: ThreadSanitizer|WARNING: ThreadSanitizer)[^\n]*", log_text)
+                violations.append((sig, (m.group(0) if m else log_text[-300:]) + "\n" + log_text[-3000:], path))
             else:
                 notes.append(f"{tag}: worker died (rc={rc}, sig={sig}) but the saved case did not reproduce 3x "
                              f"({confirmed}/3); treated as harness instability, see {log}")
